@@ -23,9 +23,10 @@ def leafParse (s : Schema) (ty : LtType) (cur : V) (t : List Char) : Outcome V :
   | some n => customParse s n cur t
   | none => if isSimple (kindOf s 8 ty) then copyValue (kindOf s 8 ty) t else .unmodelled
 
-def leafRT (s : Schema) (ty : LtType) (v : V) : Option V :=
+/-- one leaf pushed through "print, substitute non-XML characters, parse into a field holding `cur`" -/
+def leafRT (s : Schema) (ty : LtType) (cur v : V) : Option V :=
   match leafText s ty v with
-  | .ok t => (match leafParse s ty (zeroOf s 8 ty) (Text.substitute t) with | .ok q => some q | _ => none)
+  | .ok t => (match leafParse s ty cur (Text.substitute t) with | .ok q => some q | _ => none)
   | _ => none
 
 def optionOfAll {α : Type} : List (Option α) → Option (List α)
@@ -40,42 +41,59 @@ def oneElement (s : Schema) (ty : LtType) : Bool :=
   | .structT _ => true
   | k => (customM s ty).isSome || isSimple k
 
-/-- one field of a struct -/
-def rtField (s : Schema) (recur : Bool → LtType → V → Option V) (p : LtField × V) : Option V :=
-  if p.1.attr then (if p.1.omitempty then none else leafRT s p.1.typ p.2)
-  else recur p.1.omitempty p.1.typ p.2
+/-- the items of a slice field that holds `cur` -/
+def itemsOf : V → List V
+  | .list xs => xs
+  | _ => []
+
+/-- what a pointer field that holds `cur` points to when the decoder fills it -/
+def ptrTarget (s : Schema) (t' : LtType) : V → V
+  | .ptr c => c
+  | _ => zeroOf s 8 t'
+
+/-- a slice field that holds `cur` after the decoder has appended the items `qs`, one by one -/
+def appendTo (cur : V) (qs : List V) : V :=
+  qs.foldl (fun c q => V.list (itemsOf c ++ [q])) cur
+
+/-- one field of a struct: the field, what the destination holds, the value encoded -/
+def rtField (s : Schema) (recur : Bool → LtType → V → V → Option V) (p : LtField × V × V) : Option V :=
+  if p.1.attr then (if p.1.omitempty then none else leafRT s p.1.typ p.2.1 p.2.2)
+  else recur p.1.omitempty p.1.typ p.2.1 p.2.2
 
 /-- the non-pointer part of `rtOf` -/
-def rtRest (s : Schema) (recur : Bool → LtType → V → Option V) (om : Bool) (ty : LtType) (k : Kind) (v : V) :
-    Option V :=
+def rtRest (s : Schema) (recur : Bool → LtType → V → V → Option V) (om : Bool) (ty : LtType) (k : Kind)
+    (cur v : V) : Option V :=
   match customM s ty with
-  | some _ => leafRT s ty v
+  | some _ => leafRT s ty cur v
   | none =>
     match k, v with
     | .slice t', .list vs =>
       -- one element per item; an item that `omitempty` would drop cannot be carried
       if vs.any (fun e => om && isEmptyValue (kindOf s 8 t') e) || !oneElement s t' then none
-      else (optionOfAll (vs.map (recur false t'))).map V.list
+      else (optionOfAll (vs.map (recur false t' (zeroOf s 8 t')))).map (appendTo cur)
     | .structT n, .struct fs =>
-      (match s.fieldsOf n with
-       | none => none
-       | some fields =>
+      (match s.fieldsOf n, cur with
+       | some fields, .struct cs =>
          let dfs := dataFields fields
-         if dfs.length ≠ fs.length then none else
-         (optionOfAll ((dfs.zip fs).map (rtField s recur))).map V.struct)
-    | _, _ => if isSimple k then leafRT s ty v else none
+         if dfs.length ≠ fs.length ∨ dfs.length ≠ cs.length then none else
+         (optionOfAll ((dfs.zip (cs.zip fs)).map (rtField s recur))).map V.struct
+       | _, _ => none)
+    | _, _ => if isSimple k then leafRT s ty cur v else none
 
-/-- the value a decoder returns for the encoding of `v`, computed leaf by leaf along the same
-    walk as `marshalTrees`; `none` when some leaf does not survive its codec or the value has a
-    shape the format cannot carry -/
-def rtOf (s : Schema) : Nat → Bool → LtType → V → Option V
-  | 0, _, _, _ => none
-  | fuel + 1, om, ty, v =>
-    if om && isEmptyValue (kindOf s 8 ty) v then some (zeroOf s 8 ty)     -- omitted: the field keeps its zero value
+/-- the value a decoder, decoding into a destination that holds `cur`, returns for the encoding
+    of `v`, computed leaf by leaf along the same walk as `marshalTrees`; `none` when some leaf
+    does not survive its codec or the value has a shape the format cannot carry -/
+def rtOf (s : Schema) : Nat → Bool → LtType → V → V → Option V
+  | 0, _, _, _, _ => none
+  | fuel + 1, om, ty, cur, v =>
+    if om && isEmptyValue (kindOf s 8 ty) v then some cur     -- omitted: the field keeps what it holds
     else match kindOf s 8 ty, v with
-    | .ptr _, .nil => some .nil
-    | .ptr t', .ptr v' => if oneElement s t' then (rtOf s fuel false t' v').map V.ptr else none
+    | .ptr _, .nil => some cur
+    | .ptr t', .ptr v' =>
+      if oneElement s t' then
+        (rtOf s fuel false t' (ptrTarget s t' cur) v').map V.ptr
+      else none
     | .ptr _, _ => none
-    | k, v => rtRest s (rtOf s fuel) om ty k v
+    | k, v => rtRest s (rtOf s fuel) om ty k cur v
 
 end TrackVerif.LT
